@@ -43,6 +43,10 @@ ELSE_FN = {"ok_or_else", "unwrap_or_else", "or_else", "map_err", "map_or_else", 
 INDEX_PATH = "<std::vec::Vec<T, A> as std::ops::Index<I>>::index"
 
 
+_CALLABLE_CACHE = {}
+_INDEX_CACHE = {}
+
+
 class Sink:
     def __init__(self, kind, body, bi, callee, pos, tags, extra=None):
         self.kind, self.body, self.bi, self.callee, self.pos, self.tags, self.extra = kind, body, bi, callee, pos, set(tags), extra or {}
@@ -52,9 +56,11 @@ class Sink:
 
 
 class Prov:
-    def __init__(self, roles, restrict=None, upconst=None):
+    def __init__(self, roles, restrict=None, upconst=None, seeds=None, mark_inner=False):
         self.roles = roles
         self.facts = roles.facts
+        self.custom_seeds = seeds
+        self.mark_inner = mark_inner
         self.tags = defaultdict(set)
         self.restrict = restrict or {}
         self.upconst = upconst or {}
@@ -68,6 +74,11 @@ class Prov:
     def _seed(self):
         r = self.roles
         self.fixed = {}  # (key, local) -> frozen tag set (parameters whose tags are given by role)
+        if self.custom_seeds is not None:
+            self.fixed = {k: set(v) for k, v in self.custom_seeds.items()}
+            for k, v in self.fixed.items():
+                self.tags[k] = set(v)
+            return
         for k, poss in r.sinks.items():
             for p in poss:
                 self.fixed[(k, p)] = {"RULE"}
@@ -97,6 +108,24 @@ class Prov:
             cur |= new
             return True
         return False
+
+    def _inner(self, place, tags, b=None):
+        """Going through the Array/Object payload of a JSON value — or through a field /
+        variant payload of one of the crate's own tree types — yields a strict sub-structure."""
+        crate = self.facts.crate
+        for pr in place["proj"]:
+            if pr["k"] == "Downcast":
+                adt = pr.get("adt") or ""
+                if (adt == "serde_json::Value" and pr["variant"] in ("Array", "Object")) or self._is_local_adt(adt):
+                    return {t if t.endswith(".in") else t + ".in" for t in tags}
+            if pr["k"] == "Field" and b is not None:
+                adt = b.locals[place["local"]].get("adt") or ""
+                if self._is_local_adt(adt) and self.facts.adts.get(adt, {}).get("kind") == "struct":
+                    return {t if t.endswith(".in") else t + ".in" for t in tags}
+        return tags
+
+    def _is_local_adt(self, adt):
+        return bool(adt) and not adt.startswith(("std::", "core::", "alloc::", "serde_json::", "phf::")) and adt in self.facts.adts
 
     def place_tags(self, b, p):
         if b.kind == "closure" and p["local"] == 1:
@@ -173,11 +202,15 @@ class Prov:
                 new = set()
                 if k in ("Use", "Cast", "Repeat", "WrapUnsafeBinder"):
                     new |= self.op_tags(b, rv["op"])
+                    if self.mark_inner and rv["op"]["k"] in ("Copy", "Move"):
+                        new = self._inner(rv["op"]["place"], new, b)
                 elif k == "UnaryOp":
                     pass
                 elif k in ("Ref", "RawPtr", "CopyForDeref", "Discriminant"):
                     if k != "Discriminant":
                         new |= self.place_tags(b, rv["place"])
+                        if self.mark_inner:
+                            new = self._inner(rv["place"], new, b)
                     if k in ("Ref", "RawPtr") and rv.get("mut") and not s["place"]["proj"]:
                         src = rv["place"]["local"]
                         src = self.mutalias.get((b.key, src), src) if any(p["k"] == "Deref" for p in rv["place"]["proj"]) else src
@@ -261,7 +294,7 @@ class Prov:
                 self._flow_to_place(b, dest, set(self.tags[(key, 0)]))
                 return
             res = None
-            if key in self.roles.sinks:
+            if key in self.roles.sinks and not (key == self.roles.entry.key and b.key not in self.roles.inside()):
                 res = set()
                 for pos in self.roles.sinks[key]:
                     if pos - 1 < len(atags):
@@ -302,19 +335,27 @@ class Prov:
             return
         # ---- the c-th operand of a lazy operator
         if path == INDEX_PATH and len(args) == 2:
-            base = strip_refs(b.trace(args[0]))
-            cv = const_value(op_const(args[1])) if op_const(args[1]) else None
-            if cv is None:
-                e1 = strip_refs(b.trace(args[1]))
-                cv = const_value(e1[1]) if e1[0] == "const" else None
+            ik = (id(self.facts), b.key, bi)
+            if ik not in _INDEX_CACHE:
+                base = strip_refs(b.trace(args[0]))
+                cv = const_value(op_const(args[1])) if op_const(args[1]) else None
+                if cv is None:
+                    e1 = strip_refs(b.trace(args[1]))
+                    cv = const_value(e1[1]) if e1[0] == "const" else None
+                _INDEX_CACHE[ik] = (base, cv)
+            base, cv = _INDEX_CACHE[ik]
             root = self._root_unit(b)
             info = self.roles.op_fns.get(root)
             if info and info["role"] == "lazy" and isinstance(cv, int) and self._is_args_param(b, base, root):
                 self._flow_to_place(b, dest, {"RULE#%d" % cv})
                 return
         # ---- std adaptors with callable arguments
-        calls = [(i, self.callable_of(b, a)) for i, a in enumerate(args)]
-        calls = [(i, c2) for i, c2 in calls if c2 is not None]
+        ck = (b.key, bi)
+        calls = _CALLABLE_CACHE.get((id(self.facts), ck))
+        if calls is None:
+            calls = [(i, self.callable_of(b, a)) for i, a in enumerate(args)]
+            calls = [(i, c2) for i, c2 in calls if c2 is not None]
+            _CALLABLE_CACHE[(id(self.facts), ck)] = calls
         meth = path.rsplit("::", 1)[-1]
         is_iter = "Iterator" in path or "iter::" in path
         is_optres = path.startswith("std::option::Option::<") or path.startswith("std::result::Result::<")
